@@ -71,11 +71,17 @@ BagMinus(s, t) ==
   ELSE IF Head(s) < Head(t) THEN <<Head(s)>> \o BagMinus(Tail(s), t)
   ELSE BagMinus(s, Tail(t))
 
+Bases(s) == {Base(s[i]) : i \in DOMAIN s}
+Restamp(s, t) == [i \in DOMAIN s |-> WithTtl(s[i], t)]            \* Rrset::new(rtype, ttl) + the old data
+WithoutB(s, x) == SelectSeq(s, LAMBDA y : Base(y) # Base(x))      \* RDATA comparison
+NotInB(s, t) == SelectSeq(s, LAMBDA y : Base(y) \notin Bases(t))  \* members of s whose RDATA is missing from t
+
 --------------------------------------------------------------------------
 (* Zone content.  The receiver's zone keeps every RRset as a *sequence*     *)
 (* (Rrset.data is a Vec; its derived equality is order sensitive), the      *)
-(* apex SOA RRset separately.  A *view* is what walk() shows: two sorted    *)
-(* multisets.                                                               *)
+(* apex SOA RRset separately; the RRset's TTL is the TTL index all its     *)
+(* members carry.  A *view* is what walk() shows: two sorted multisets of   *)
+(* records, TTLs included.                                                  *)
 
 Keys(U) == {KeyOf(r) : r \in U}
 EmptyRr(U) == [k \in Keys(U) |-> <<>>]
@@ -87,18 +93,85 @@ View(z) == [soa |-> SortS(z.soa), recs |-> SortS(AllRecs(z))]
 VersionView(s, c) == [soa |-> <<SoaRec(s)>>, recs |-> SetToSeq(c)]
 
 --------------------------------------------------------------------------
+(* Diff capture for one RRset: src/zonetree/in_memory/write.rs              *)
+
+NoDb(K) == [add |-> [k \in K |-> <<>>], rem |-> [k \in K |-> <<>>]]
+NoDiffB(z) == NoDb(DOMAIN z.rr)
+SeqTtl(s) == TtlOf(s[1])               \* Rrset::ttl of a non-empty RRset
+
+\* WriteNode::update_rrset: diff bookkeeping against the *published* RRset.
+\* Rrset equality (derived) covers the TTL and the order of the Vec; the
+\* members are compared by RDATA.
+\* ttlAware = FALSE is the code as built (D_zone_diff_ttl_change_lost).
+DbUpdateF(db, cur, k, new, ttlAware) ==
+  LET changed == new # cur
+      hasCur == cur # <<>> /\ changed
+  IN IF hasCur /\ new # <<>> THEN
+       IF SeqTtl(cur) # SeqTtl(new) /\ ttlAware
+       THEN \* the TTL belongs to every RR of the set (RFC 2181 5.2): the RRs as
+            \* they were are removed, the RRs as they are now are added
+            [add |-> [db.add EXCEPT ![k] = new], rem |-> [db.rem EXCEPT ![k] = cur]]
+       ELSE
+       \* as built the entries are Rrset::new(new.rtype(), new.ttl()) filled with
+       \* the RDATA leaving / arriving: a removed RR is stamped with the *new*
+       \* TTL, and a change of the TTL alone leaves no entry at all
+       LET rm == Restamp(NotInB(cur, new), SeqTtl(new))
+           ad == NotInB(new, cur)
+       IN [add |-> IF ad # <<>> THEN [db.add EXCEPT ![k] = ad] ELSE db.add,
+           rem |-> IF rm # <<>> THEN [db.rem EXCEPT ![k] = rm] ELSE db.rem]
+     ELSE IF hasCur THEN [db EXCEPT !.rem[k] = cur]
+     ELSE IF new # <<>> THEN [db EXCEPT !.add[k] = new]
+     ELSE db
+TtlAware == "D_zone_diff_ttl_change_lost" \notin Dev
+DbUpdate(db, cur, k, new) == DbUpdateF(db, cur, k, new, TtlAware)
+\* WriteNode::remove_rrset
+DbRemove(db, cur, k) == IF cur # <<>> THEN [db EXCEPT !.rem[k] = cur] ELSE db
+
+\* The difference set of a write session that touches every RRset whose
+\* content differs once (one update_rrset / remove_rrset call per RRset)
+KeyNetDbF(rrA, rrB, ttlAware) ==
+  LET K == DOMAIN rrA
+      One(k) == IF Range(rrA[k]) = Range(rrB[k]) THEN NoDb(K)
+                ELSE IF rrB[k] = <<>> THEN DbRemove(NoDb(K), rrA[k], k)
+                ELSE DbUpdateF(NoDb(K), rrA[k], k, rrB[k], ttlAware)
+  IN [add |-> [k \in K |-> One(k).add[k]], rem |-> [k \in K |-> One(k).rem[k]]]
+KeyNetDb(rrA, rrB) == KeyNetDbF(rrA, rrB, TtlAware)
+FlatSorted(f) == SortS(Concat([i \in 1..Len(SetToSeq(DOMAIN f)) |-> f[SetToSeq(DOMAIN f)[i]]]))
+
+--------------------------------------------------------------------------
 (* Sender *)
 
 AxfrSeq(s, c) == <<SoaRec(s)>> \o SetToSeq(c) \o <<SoaRec(s)>>
 
 \* hist = <<[s |-> serial, c |-> content>>, ...>>, oldest first, Len >= 2
+\* style "rfc": RFC 1995 4 - the deleted RRs as they were, the added RRs as
+\* they are (a TTL is part of an RR: an RRset whose TTL changes is deleted
+\* and added as a whole)
 DiffSeq(a, b) == <<SoaRec(a.s)>> \o SetToSeq(a.c \ b.c) \o
                  <<SoaRec(b.s)>> \o SetToSeq(b.c \ a.c)
-IxfrSeq(hist) ==
+\* style "lib": the difference set the zone itself reports when the primary
+\* rewrites every changed RRset once and commits (InMemoryZoneDiff served by
+\* XfrMiddlewareSvc / DiffFunneler).
+\* style "stamped": that wording as built at the pinned commit, whatever Dev
+\* says - only the RDATA that leaves or arrives is listed, and what leaves is
+\* stamped with the RRset's *new* TTL; an RRset whose TTL alone changes is
+\* not mentioned, so this wording can only transfer histories without such a
+\* step.  ZoneUpdater is built to read it (a DeleteRecord hands its TTL to
+\* the records that remain).
+RrOf(K, c) == [k \in K |-> SetToSeq({r \in c : KeyOf(r) = k})]
+LibDiffSeq(a, b, ttlAware) ==
+  LET K == Keys(a.c \cup b.c)
+      db == KeyNetDbF(RrOf(K, a.c), RrOf(K, b.c), ttlAware)
+  IN <<SoaRec(a.s)>> \o FlatSorted(db.rem) \o <<SoaRec(b.s)>> \o FlatSorted(db.add)
+IxfrSeqS(hist, style) ==
   LET n == Len(hist) IN
   <<SoaRec(hist[n].s)>> \o
-  Concat([i \in 1..(n - 1) |-> DiffSeq(hist[i], hist[i + 1])]) \o
+  Concat([i \in 1..(n - 1) |->
+            CASE style = "lib" -> LibDiffSeq(hist[i], hist[i + 1], TtlAware)
+              [] style = "stamped" -> LibDiffSeq(hist[i], hist[i + 1], FALSE)
+              [] OTHER -> DiffSeq(hist[i], hist[i + 1])]) \o
   <<SoaRec(hist[n].s)>>
+IxfrSeq(hist) == IxfrSeqS(hist, "rfc")
 UpToDateSeq(s) == <<SoaRec(s)>>
 
 \* all ways to cut seq into at most k non-empty consecutive pieces
@@ -229,28 +302,10 @@ IterMsg(ip, m) ==
 --------------------------------------------------------------------------
 (* Updater and diff capture: src/zonetree/update.rs, in_memory/write.rs *)
 
-NoDiffB(z) == [add |-> [k \in DOMAIN z.rr |-> <<>>], rem |-> [k \in DOMAIN z.rr |-> <<>>]]
-
-\* WriteNode::update_rrset: diff bookkeeping against the *published* RRset
-DbUpdate(db, cur, k, new) ==
-  LET changed == new # cur                      \* Vec equality: order sensitive
-      hasCur == cur # <<>> /\ changed
-  IN IF hasCur /\ new # <<>> THEN
-       LET rm == NotIn(cur, new)
-           ad == NotIn(new, cur)
-       IN [add |-> IF ad # <<>> THEN [db.add EXCEPT ![k] = ad] ELSE db.add,
-           rem |-> IF rm # <<>> THEN [db.rem EXCEPT ![k] = rm] ELSE db.rem]
-     ELSE IF hasCur THEN [db EXCEPT !.rem[k] = cur]
-     ELSE IF new # <<>> THEN [db EXCEPT !.add[k] = new]
-     ELSE db
-\* WriteNode::remove_rrset
-DbRemove(db, cur, k) == IF cur # <<>> THEN [db EXCEPT !.rem[k] = cur] ELSE db
-
 \* receiver zone: com(mitted), pen(ding), db (diff builder), st (updater state)
 ZoneInit(z) == [com |-> z, pen |-> z, db |-> NoDiffB(z), st |-> "normal"]
 
 SerialOf(soaSeq) == IF soaSeq = <<>> THEN 0 ELSE SoaSerial(Head(soaSeq))
-FlatSorted(f) == SortS(Concat([i \in 1..Len(SetToSeq(DOMAIN f)) |-> f[SetToSeq(DOMAIN f)[i]]]))
 
 \* WriteZone::commit(false) + publish: [zn, diff]; diff = <<>> stands for None
 Commit(zn) ==
@@ -260,12 +315,18 @@ Commit(zn) ==
       after == View(zn.pen)
       addNet == BagMinus(after.recs, before.recs)
       remNet == BagMinus(before.recs, after.recs)
+      \* D_zone_diff_not_net: the bookkeeping of the session as it went;
+      \* D_zone_diff_ttl_change_lost alone: the net change, RRset by RRset,
+      \* with the TTL handling of update_rrset as built
+      asBuilt == "D_zone_diff_not_net" \in Dev
+      ttlOnly == ~asBuilt /\ "D_zone_diff_ttl_change_lost" \in Dev
+      kdb == KeyNetDb(zn.com.rr, zn.pen.rr)
       d == IF os > 0 /\ ns > 0 /\ os < ns
            THEN << [s |-> os, e |-> ns,
-                    add |-> SortS((IF "D_zone_diff_not_net" \in Dev
-                                     THEN FlatSorted(zn.db.add) ELSE addNet) \o <<Head(zn.pen.soa)>>),
-                    rem |-> SortS((IF "D_zone_diff_not_net" \in Dev
-                                     THEN FlatSorted(zn.db.rem) ELSE remNet) \o <<Head(zn.com.soa)>>)] >>
+                    add |-> SortS((IF asBuilt THEN FlatSorted(zn.db.add)
+                                   ELSE IF ttlOnly THEN FlatSorted(kdb.add) ELSE addNet) \o <<Head(zn.pen.soa)>>),
+                    rem |-> SortS((IF asBuilt THEN FlatSorted(zn.db.rem)
+                                   ELSE IF ttlOnly THEN FlatSorted(kdb.rem) ELSE remNet) \o <<Head(zn.com.soa)>>)] >>
            ELSE <<>>
   IN [zn |-> [zn EXCEPT !.com = zn.pen, !.db = NoDiffB(zn.pen)], diff |-> d]
 
@@ -283,14 +344,19 @@ Apply(zn, u) ==
   IF zn.st = "finished" THEN [zn |-> zn, err |-> TRUE, diff |-> <<>>, commit |-> FALSE]
   ELSE IF kind = "DelAll" THEN      \* remove_all: nothing is recorded in the diff
     Plain([zn EXCEPT !.pen = [soa |-> <<>>, rr |-> [k \in DOMAIN zn.pen.rr |-> <<>>]]])
-  ELSE IF kind = "Del" THEN Plain(SetRr(KeyOf(r), Without(zn.pen.rr[KeyOf(r)], r)))
+  ELSE IF kind = "Del" THEN
+    \* delete_record_from_rrset: Rrset::new(rec.rtype(), rec.ttl()) filled with
+    \* what is left - the RRset takes the TTL the DeleteRecord carries
+    Plain(SetRr(KeyOf(r), Restamp(WithoutB(zn.pen.rr[KeyOf(r)], r), TtlOf(r))))
   ELSE IF kind = "Add" THEN
     IF IsSoa(r)         \* AXFR style: a SOA other than the opening one is just a record
     THEN Plain([zn EXCEPT !.pen.soa =
                   IF r \in Range(@) /\ "D_xfr_dup_rr_kept" \notin Dev THEN @ ELSE <<r>> \o @])
-    ELSE IF r \in Range(zn.pen.rr[KeyOf(r)]) /\ "D_xfr_dup_rr_kept" \notin Dev
+    ELSE IF Base(r) \in Bases(zn.pen.rr[KeyOf(r)]) /\ "D_xfr_dup_rr_kept" \notin Dev
          THEN Plain(zn)                       \* RFC 5936 2.2: duplicates MUST be ignored
-         ELSE Plain(SetRr(KeyOf(r), <<r>> \o zn.pen.rr[KeyOf(r)]))
+         \* add_record_to_rrset: Rrset::new(rec.rtype(), rec.ttl()), the new RR,
+         \* then the old ones - the RRset takes the TTL the AddRecord carries
+         ELSE Plain(SetRr(KeyOf(r), <<r>> \o Restamp(zn.pen.rr[KeyOf(r)], TtlOf(r))))
   ELSE IF kind = "BBD" /\ "D_ixfr_soa_chain_unchecked" \notin Dev /\ zn.pen.soa # <<r>> THEN
     \* types.rs, BeginBatchDelete: "The record must be a SOA record that matches
     \* the SOA record of the zone version in which the subsequent DeleteRecords
@@ -395,6 +461,19 @@ Consumable(ms, req, i, acc) ==
   ELSE IF ms[i].anc > Len(ms[i].an) THEN [seq |-> acc \o ms[i].an, allValid |-> FALSE]
   ELSE Consumable(ms, req, i + 1, acc \o SubSeq(ms[i].an, 1, ms[i].anc))
 
+\* RRs of a transfer are named by owner, type and RDATA; an RRset has one
+\* TTL (RFC 2181 5.2), the one carried by the RRs of it the transfer
+\* mentioned last; an RR that is already there is a duplicate and ignored
+\* (RFC 5936 2.2).
+ODel(C, d) == {x \in C : KeyOf(x) # KeyOf(d)} \cup
+              {WithTtl(x, TtlOf(d)) : x \in {y \in C : KeyOf(y) = KeyOf(d) /\ Base(y) # Base(d)}}
+OAdd(C, a) == IF \E x \in C : Base(x) = Base(a) THEN C
+              ELSE {x \in C : KeyOf(x) # KeyOf(a)} \cup {a} \cup
+                   {WithTtl(x, TtlOf(a)) : x \in {y \in C : KeyOf(y) = KeyOf(a)}}
+RECURSIVE OFold(_, _, _)
+OFold(C, s, del) == IF s = <<>> THEN C
+                    ELSE OFold(IF del THEN ODel(C, Head(s)) ELSE OAdd(C, Head(s)), Tail(s), del)
+
 \* Reading of a record sequence against the receiver's content (soa s0, set c0).
 \* Result: [versions: views the stream has *completely* described so far,
 \*          complete: the closing SOA was seen, bad: a framing rule is broken]
@@ -410,7 +489,7 @@ ReadIxfr(seq, p, top, curS, curC, vs) ==
         nd == IF \E i \in 1..Len(rest) : IsSoa(rest[i])
               THEN (CHOOSE i \in 1..Len(rest) : IsSoa(rest[i]) /\ \A j \in 1..(i - 1) : ~IsSoa(rest[j])) - 1
               ELSE Len(rest)
-        dels == Range(SubSeq(rest, 1, nd))
+        dels == SubSeq(rest, 1, nd)
     IN IF nd = Len(rest) THEN [versions |-> vs, complete |-> FALSE, bad |-> FALSE]
        ELSE
          LET newS == rest[nd + 1]
@@ -418,8 +497,8 @@ ReadIxfr(seq, p, top, curS, curC, vs) ==
              na == IF \E i \in 1..Len(rest2) : IsSoa(rest2[i])
                    THEN (CHOOSE i \in 1..Len(rest2) : IsSoa(rest2[i]) /\ \A j \in 1..(i - 1) : ~IsSoa(rest2[j])) - 1
                    ELSE Len(rest2)
-             adds == Range(SubSeq(rest2, 1, na))
-             newC == (curC \ dels) \cup adds
+             adds == SubSeq(rest2, 1, na)
+             newC == OFold(OFold(curC, dels, TRUE), adds, FALSE)
          IN IF na = Len(rest2)       \* the additions may still be going on
             THEN [versions |-> vs, complete |-> FALSE, bad |-> FALSE]
             ELSE ReadIxfr(seq, p + nd + na + 2, top, newS, newC,
@@ -435,7 +514,7 @@ ReadAxfr(seq) ==
   IN IF \E i \in 1..Len(body) : IsSoa(body[i])
      THEN [versions |-> <<>>, complete |-> FALSE, bad |-> TRUE]    \* a foreign SOA inside
      ELSE IF ~hasEnd THEN [versions |-> <<>>, complete |-> FALSE, bad |-> FALSE]
-     ELSE [versions |-> << [soa |-> <<top>>, recs |-> SetToSeq(Range(body))] >>,
+     ELSE [versions |-> << [soa |-> <<top>>, recs |-> SetToSeq(OFold({}, body, FALSE))] >>,
            complete |-> TRUE, bad |-> FALSE]
 
 DeclRead(seq, req, s0, c0) ==
